@@ -524,9 +524,11 @@ func (a *Analysis) output() {
 	on, _ := g.OnCycle()
 	a.Cyclic = len(on) > 0
 	// scopes
+	// (a placeholder service keeps its declared scope for this rule: a shared service must not depend on a
+	// contextual placeholder either; at run time placeholders carry no scope, see EffectiveScopes)
 	scope := map[string]string{}
 	for _, s := range c.Services {
-		if s.Scope != nil && !s.IsTodo() {
+		if s.Scope != nil {
 			scope[s.Name] = *s.Scope
 		}
 	}
